@@ -313,9 +313,9 @@ def slot_templates():
 SLOT_CLAUSES = ["select", "where", "having", "join_on", "orderby", "set_value", "insert_value"]
 
 
-def slot_program(cls, name, clause):
+def slot_program(cls, name, clause, negative=False):
     n, make = slot_templates()[name]
-    holes = [["vw", ["raw", 7001 + 13 * i]] for i in range(n)]
+    holes = [["vw", ["raw", (-1 if negative else 1) * (7001 + 13 * i)]] for i in range(n)]
     e = make(holes)
     crit = prog_is_criterion(e)
     src = {"T": ["tbl", "t1", None, None], "U": ["tbl", "t2", None, None]}
@@ -366,6 +366,8 @@ def slot_cases():
                 continue
             for cls in CTXS:
                 yield {"family": "slots", "name": name, "clause": clause, "cls": cls}
+                # the same with negative numbers in every slot (the sign is where the inline and the parameterised form can part)
+                yield {"family": "slots", "name": name, "clause": clause, "cls": cls, "negative": True}
 
 
 def clause_of(p, s_par):
@@ -377,7 +379,7 @@ def check_case(case):
         res = check_program(positional_programs(case["cls"])[case["name"]])
         return [(mksig("any", "positional", case["name"], k), d) for k, d in res if k != "__build__"]
     if case.get("family") == "slots":
-        p = slot_program(case["cls"], case["name"], case["clause"])
+        p = slot_program(case["cls"], case["name"], case["clause"], case.get("negative", False))
         res = check_program(p)
         return [(mksig(case["cls"] if k in ("style", "numbering") or k.startswith("raises") else "any", "slots", case["name"].split("_")[0], k), d) for k, d in res if k != "__build__"]
     res = check_program(case)
@@ -412,7 +414,7 @@ def run_shard(shard):
     col = Collector()
     if tier == "slots":
         for case in slot_cases():
-            p = slot_program(case["cls"], case["name"], case["clause"])
+            p = slot_program(case["cls"], case["name"], case["clause"], case.get("negative", False))
             res = check_program(p)
             if res and res[0][0] == "__build__":
                 col.count("slots_build_raised:%s:%s" % (case["name"], res[0][1]))
